@@ -14,6 +14,7 @@ package utils
 // and the ECDSA signature over data verifies under it. (Also used by C07.)
 //@ func VerifySign
 //@   property C11 C07
+//@   pure
 //@   let xcc = client.CreateCryptoClientFromJSONPublicKey(bytes(si.PublicKey))
 //@   let key = xcc.GetEcdsaPublicKeyFromJsonStr(si.PublicKey)
 //@   ensures key_binds_address_and_data: result0 ==> client.CreateCryptoClientFromJSONPublicKey#1(bytes(si.PublicKey)) == nil && xcc.GetEcdsaPublicKeyFromJsonStr#1(si.PublicKey) == nil && xcc.VerifyAddressUsingPublicKey(ak, key) && xcc.VerifyECDSA(key, si.Sign, data)
@@ -27,3 +28,20 @@ package utils
 //@   at ACLValidatorFactory.GetACLValidator assert validator_of_node_rule: $0 == pnode.ACL.Pm.Rule
 //@   at fieldwrite.Status assert status_is_verdict: $0 == pnode && ($1 == 2 || $1 == 3) && (($1 == 2) == checkResult)
 //@   ensures root_verdict: result1 == nil ==> result0 == (root.Status == 2)
+
+// Functions of their arguments (and of the unchanging ACL state during one verification).
+//@ func IsAccount
+//@   noverify
+//@   pure
+//@ func IdentifyAccount
+//@   noverify
+//@   pure
+
+// An access key URI is identified by a signature only through VerifySign on its last path segment.
+//@ func IdentifyAK
+//@   property C07
+//@   pure
+//@   ensures via_verify_sign: result0 ==> sign != nil && VerifySign(lastSeg(akuri), sign, msg)
+//@ func SplitAccountURI
+//@   noverify
+//@   ensures last_segment: len(result) >= 1 && result[len(result) - 1] == lastSeg(akuri)
